@@ -29,10 +29,29 @@
   `SparsityPattern::new(·, ·, "clique_graph")` up to two tested links
   (`analysis_clique_graph_valid_partial`; `Lemmas/ChordalCG*.lean`).
 
-  Not carried by a theorem: the running-intersection property of Kruskal's spanning tree in the
-  merged clique graph (tested hypotheses `cgRipB`, `cgNonemptyB`, channel `cg.trace`), the AMD ordering and the
-  symbolic factorisation (inputs of the model; the hypotheses of the pipeline theorems are
-  evaluated on them at run time, channel `hyp.analysis`); see the note at the end.
+  Junction-tree link (last section but one): the running-intersection property of Kruskal's spanning
+  tree and the non-emptiness of the supernodes are no longer hypotheses of their own.  Proved:
+  every maximum-weight forest of a graph that contains a junction tree is a junction tree
+  (`junction_tree_of_max_weight`), `kruskal` is maximum-weight (`kruskal_maximum_weight`),
+  contracting a junction-tree edge keeps a junction tree and the antichain property
+  (`junction_tree_contract`), the graph after `initialise` contains the supernode tree and the
+  initial cliques are maximal, one merge / the whole loop keep both, the exchange lemma for
+  separating pairs; pipelines `analysis_clique_graph_valid_{exitjt,merges,sep}_partial`
+  (`Lemmas/ChordalJunctionTree.lean`, `ChordalForestCount.lean`, `ChordalKruskalMax.lean`,
+  `ChordalJTContract.lean`, `ChordalJTSwap.lean`, `ChordalCGJunction*.lean`,
+  `ChordalCGInterWeights.lean`, `ChordalCGRipDisjoint.lean`, `ChordalCGAntichainInit.lean`).
+
+  Last link (last section): THE EDGE MATRIX IS AT ALL TIMES EXACTLY THE REDUCED CLIQUE GRAPH OF THE
+  CURRENT CLIQUES (`compute_reduced_clique_graph` emits exactly the separating pairs; a permissible
+  merge keeps exactness; `traverse` returns permissible candidates only), hence every merge merges a
+  separating pair, and `analysis_clique_graph_valid` holds WITHOUT ANY HYPOTHESIS ON THE RUN
+  (`Lemmas/ChordalJTExact.lean`, `ChordalCGReducedExact.lean`, `ChordalCGExactInit.lean`,
+  `ChordalCGTraversePerm.lean`, `ChordalCGExact{Loop,Final}.lean`).
+
+  Not carried by a theorem: the AMD ordering and the symbolic factorisation (inputs of the model; the
+  hypotheses of the pipeline theorems are evaluated on them at run time, channel `hyp.analysis`);
+  see the note at the end.  The formerly tested links `cgRipB`, `cgNonemptyB` are theorems now and
+  stay evaluated on every case (channel `cg.trace`).
 -/
 import ClarabelProofs.Lemmas.ChordalDsu
 import ClarabelProofs.Lemmas.ChordalPostOrder
@@ -47,6 +66,9 @@ import ClarabelProofs.Lemmas.ChordalKruskal
 import ClarabelProofs.Lemmas.ChordalValid
 import ClarabelProofs.Lemmas.ChordalBridge
 import ClarabelProofs.Lemmas.ChordalCGFinal
+import ClarabelProofs.Lemmas.ChordalCGJunctionFinal
+import ClarabelProofs.Lemmas.ChordalCGJunctionSep
+import ClarabelProofs.Lemmas.ChordalCGExactFinal
 
 namespace Clarabel.C17
 open Clarabel Clarabel.Chordal
@@ -1028,7 +1050,8 @@ example : ∃ t0 t', SuperNodeTree.new exL = .ok t0 ∧ CGStrategy.mergeCliques 
   exact ⟨t0, t', hnew, h⟩
 
 /-
-  FULL STATEMENT (not proved):
+  FULL STATEMENT (NOT PROVED AT THIS POINT OF THE FILE; PROVED AS `analysis_clique_graph_valid` IN THE LAST
+  SECTION, the three missing ingredients listed here having been supplied):
     theorem analysis_clique_graph_valid {L : LPat} (h : L.Filled) (ordering : Array Nat)
         (ho : ordering.toList.Perm (List.range L.n)) (edges : List (Nat × Nat))
         (hedges : ∀ e ∈ edges, …) :
@@ -1081,14 +1104,562 @@ theorem analysis_clique_graph_valid_of_tests (L : LPat) (ordering : Array Nat)
     h4 h5
   exact ⟨tf, ord', a, b⟩
 
+
+/-! ## the clique-graph strategy, JUNCTION-TREE LINK (round 5 follow-up) — `Lemmas/ChordalJunctionTree.lean`,
+`ChordalForestCount.lean`, `ChordalKruskalMax.lean`, `ChordalJTContract.lean`, `ChordalCGJunction*.lean`,
+`ChordalCGInterWeights.lean`, `ChordalCGRipDisjoint.lean`, `ChordalCGAntichainInit.lean`
+
+Vocabulary: cliques are indices from a duplicate-free list `L`, the family is the membership function
+`cl c v`, graphs and forests are lists of pairs (`Conn`, `ForestFrom []`); `JT.RIP cl L T` is the
+running-intersection property of the edge list `T` (for every vertex `v` the cliques containing `v`
+are connected by the edges of `T` both of whose ends contain `v`), `JT.w cl nv e = |C_{e.1} ∩ C_{e.2}|`,
+`JT.weight` the total weight, `JT.bound = Σ_v (|{c : v ∈ C_c}| − 1)`.  For the model, `cgCl t` is the
+membership function of the clique sets of the running strategy, `CGHasJT s t J` says that `J` is a
+junction tree of the live cliques made of stored entries of the edge matrix, `CGAntichain t` that no
+live clique is contained in another one. -/
+
+/-- [S] **EVERY FOREST ON THE CLIQUES WEIGHS AT MOST `Σ_v (|L_v| − 1)`** (for each vertex `v` the edges
+both of whose ends contain `v` form a forest on the cliques containing `v`). -/
+theorem junction_tree_weight_le_bound {cl : Nat → Nat → Bool} {L : List Nat} (hL : L.Nodup) (nv : Nat)
+    {T : List (Nat × Nat)} (hT : ForestFrom [] T) (hTL : ∀ e ∈ T, e.1 ∈ L ∧ e.2 ∈ L) :
+    JT.weight cl nv T ≤ JT.bound cl nv L :=
+  JT.weight_le_bound hL nv hT hTL
+
+/-- [S] **A FOREST HAS THE RUNNING-INTERSECTION PROPERTY IFF ITS WEIGHT IS `Σ_v (|L_v| − 1)`** (all
+cliques inside the vertices `0..nv`). -/
+theorem junction_tree_iff_weight {cl : Nat → Nat → Bool} {L : List Nat} (hL : L.Nodup) (nv : Nat)
+    (hnv : ∀ c ∈ L, ∀ v, cl c v = true → v < nv) {T : List (Nat × Nat)}
+    (hT : ForestFrom [] T) (hTL : ∀ e ∈ T, e.1 ∈ L ∧ e.2 ∈ L) :
+    JT.RIP cl L T ↔ JT.weight cl nv T = JT.bound cl nv L :=
+  JT.rip_iff_weight_eq hL nv hnv hT hTL
+
+/-- non-vacuity: the path of three cliques `{0,1}`, `{1,2}`, `{2,3}` with the tree `1—0`, `2—1` -/
+example : JT.weight JT.Ex.cl3 4 JT.Ex.J3 = JT.bound JT.Ex.cl3 4 [0, 1, 2] :=
+  (junction_tree_iff_weight (by decide) 4 (by
+    intro c _ v hv
+    simp only [JT.Ex.cl3] at hv
+    by_contra h
+    have : ∀ k : Nat, k < 4 → (v == k) = false := fun k hk => by simp; omega
+    simp [this 0, this 1, this 2, this 3] at hv) JT.Ex.J3_forest (by decide)).1 JT.Ex.J3_rip
+
+/-- [S] **(Jensen–Jensen / Shibata) EVERY MAXIMUM-WEIGHT FOREST OF A GRAPH THAT CONTAINS A JUNCTION
+TREE IS A JUNCTION TREE**: `G` any edge list (the clique graph), `J ⊆ G` an acyclic edge list with the
+running-intersection property, `T` an acyclic edge list whose weight `Σ |Cᵢ ∩ Cⱼ|` is maximal among
+the acyclic sublists of `G`; then `T` has the running-intersection property. -/
+theorem junction_tree_of_max_weight {cl : Nat → Nat → Bool} {L : List Nat} (hL : L.Nodup) (nv : Nat)
+    (hnv : ∀ c ∈ L, ∀ v, cl c v = true → v < nv) (G : List (Nat × Nat)) {J T : List (Nat × Nat)}
+    (hJ : ForestFrom [] J) (hJL : ∀ e ∈ J, e.1 ∈ L ∧ e.2 ∈ L) (hJG : ∀ e ∈ J, e ∈ G)
+    (hrip : JT.RIP cl L J)
+    (hT : ForestFrom [] T) (hTL : ∀ e ∈ T, e.1 ∈ L ∧ e.2 ∈ L)
+    (hmax : ∀ F, ForestFrom [] F → (∀ e ∈ F, e ∈ G) → JT.weight cl nv F ≤ JT.weight cl nv T) :
+    JT.RIP cl L T :=
+  JT.rip_of_max_weight hL nv hnv G hJ hJL hJG hrip hT hTL hmax
+
+/-- non-vacuity: all hypotheses hold for the three-clique path inside the triangle `JT.Ex.G3`
+(junction tree `J3`, the other listing `[(2,1), (1,0)]` as the maximum-weight forest) — see the
+second `example` at the end of `Lemmas/ChordalJunctionTree.lean`; here the junction tree itself -/
+example : JT.RIP JT.Ex.cl3 [0, 1, 2] JT.Ex.J3 := by
+  have hnv : ∀ c ∈ [0, 1, 2], ∀ v, JT.Ex.cl3 c v = true → v < 4 := by
+    intro c _ v hv
+    simp only [JT.Ex.cl3] at hv
+    by_contra h
+    have : ∀ k : Nat, k < 4 → (v == k) = false := fun k hk => by simp; omega
+    simp [this 0, this 1, this 2, this 3] at hv
+  refine junction_tree_of_max_weight (by decide) 4 hnv JT.Ex.G3 JT.Ex.J3_forest (by decide)
+    (by decide) JT.Ex.J3_rip JT.Ex.J3_forest (by decide) ?_
+  intro F hF hFG
+  have hb := junction_tree_weight_le_bound (cl := JT.Ex.cl3) (L := [0, 1, 2]) (by decide) 4 hF (by
+    intro e he
+    have := hFG e he
+    simp only [JT.Ex.G3, List.mem_cons, List.not_mem_nil, or_false] at this
+    rcases this with rfl | rfl | rfl <;> decide)
+  have : JT.bound JT.Ex.cl3 4 [0, 1, 2] = JT.weight JT.Ex.cl3 4 JT.Ex.J3 := by decide
+  omega
+
+/-- [S] **ACYCLIC IFF `#classes + #edges = #vertices`** — acyclicity (`ForestFrom []`, defined along
+the listing order) does not depend on the order in which the edges are listed. -/
+theorem forest_iff_class_count {L : List Nat} (hL : L.Nodup) {ms : List (Nat × Nat)}
+    (hin : ∀ e ∈ ms, e.1 ∈ L ∧ e.2 ∈ L) {reps : List Nat} (hr : Reps ms L reps) :
+    ForestFrom [] ms ↔ reps.length + ms.length = L.length :=
+  forest_iff_count hL hin hr
+
+/-- non-vacuity: the path `1—0`, `2—1` has the single class `[0]` -/
+example : ∃ reps, Reps [(1, 0), (2, 1)] [0, 1, 2] reps :=
+  reps_exists (by decide) _ (by decide)
+
+/-- [S] **`kruskal` RETURNS A MAXIMUM-WEIGHT SPANNING FOREST**: on a well-formed edge matrix whose
+entries join the `numCliques` live cliques `Lv` and connect them, with stored weights `w(row, col)`,
+every acyclic list of stored entries weighs at most as much as the marked tree `kruskalTree`.
+(Underneath, `kruskal_heavy`: every stored entry is spanned by marked entries at least as heavy — the
+greedy invariant, also across the early `break`.) -/
+theorem kruskal_maximum_weight {E : IMat} (h : E.WFE) {numCliques : Nat} (hnc : 0 < numCliques)
+    {Lv : List Nat} (hLv : Lv.Nodup) (hlen : Lv.length = numCliques)
+    (hedges : ∀ e ∈ E.edges, e.1 ∈ Lv ∧ e.2 ∈ Lv)
+    (hconn : ∀ u ∈ Lv, ∀ v ∈ Lv, Conn E.edges u v)
+    (w : Nat × Nat → Nat)
+    (hw : ∀ k, k < E.rowval.size →
+      E.nzval.getD k 0 = Int.ofNat (w (E.rowval.getD k 0, E.colIdx.getD k 0))) :
+    ∀ F, ForestFrom [] F → (∀ e ∈ F, e ∈ E.edges) →
+      (F.map w).sum ≤ ((kruskalTree E numCliques).map w).sum :=
+  kruskal_max_weight h hnc hLv hlen hedges hconn w hw
+
+/-- non-vacuity: the weighted triangle (weights 3, 2, 1): the forest `[(2,1)]` weighs at most as
+much as the tree `kruskal` marks -/
+example : ([(2, 1)].map KrEx.triW).sum ≤ ((kruskalTree KrEx.tri 3).map KrEx.triW).sum := by
+  obtain ⟨h1, h2, h3, h4, h5, h6, h7⟩ := KrEx.tri_hyps
+  refine kruskal_maximum_weight h1 h2 h3 h4 h5 h6 KrEx.triW h7 [(2, 1)] ?_ ?_
+  · exact ⟨fun h => by have := (conn_nil_iff _ _).1 h; omega, trivial⟩
+  · rw [KrEx.tri_edges]; decide
+
+/-- [S] **CONTRACTING AN EDGE OF A JUNCTION TREE GIVES A JUNCTION TREE OF THE MERGED FAMILY**: `J`
+acyclic on `L` with the running-intersection property for `cl`, `{a, b}` an edge of `J`; then
+`JT.contract a b J` (the edge removed, `b` renamed to `a`) is acyclic, lives on `L` without `b`, and
+has the running-intersection property for the family in which `C_a ∪ C_b` replaces `C_a`, `C_b`. -/
+theorem junction_tree_contract (cl : Nat → Nat → Bool) (L : List Nat) (J : List (Nat × Nat))
+    (a b : Nat) (hL : L.Nodup) (hab : a ≠ b) (ha : a ∈ L) (hb : b ∈ L) (hJ : ForestFrom [] J)
+    (hJL : ∀ e ∈ J, e.1 ∈ L ∧ e.2 ∈ L) (hrip : JT.RIP cl L J) (hedge : (a, b) ∈ J ∨ (b, a) ∈ J) :
+    ForestFrom [] (JT.contract a b J) ∧
+    (∀ e ∈ JT.contract a b J, e.1 ∈ L.erase b ∧ e.2 ∈ L.erase b) ∧
+    JT.RIP (JT.mergeCl cl a b) (L.erase b) (JT.contract a b J) :=
+  JT.contract_spec cl L J a b hL hab ha hb hJ hJL hrip hedge
+
+/-- [S] **… AND THE MERGED FAMILY IS STILL AN ANTICHAIN** (no clique contained in another one). -/
+theorem junction_tree_contract_antichain (cl : Nat → Nat → Bool) (L : List Nat)
+    (J : List (Nat × Nat)) (a b : Nat) (hL : L.Nodup) (hab : a ≠ b) (ha : a ∈ L) (hb : b ∈ L)
+    (hJ : ForestFrom [] J) (hJL : ∀ e ∈ J, e.1 ∈ L ∧ e.2 ∈ L) (hrip : JT.RIP cl L J)
+    (hedge : (a, b) ∈ J ∨ (b, a) ∈ J) (hanti : JT.Antichain cl L) :
+    JT.Antichain (JT.mergeCl cl a b) (L.erase b) :=
+  JT.antichain_contract cl L J a b hL hab ha hb hJ hJL hrip hedge hanti
+
+/-- non-vacuity: contracting `1—0` in the three-clique path leaves `2—1` on the cliques `[1, 2]` -/
+example : JT.contract 1 0 JT.Ex.J3 = [(2, 1)] ∧
+    JT.RIP (JT.mergeCl JT.Ex.cl3 1 0) [1, 2] (JT.contract 1 0 JT.Ex.J3) ∧
+    JT.Antichain (JT.mergeCl JT.Ex.cl3 1 0) [1, 2] := by
+  have h := junction_tree_contract JT.Ex.cl3 [0, 1, 2] JT.Ex.J3 1 0 (by decide) (by decide)
+    (by decide) (by decide) JT.Ex.J3_forest (by decide) JT.Ex.J3_rip (.inl (by decide))
+  exact ⟨by decide, h.2.2, junction_tree_contract_antichain JT.Ex.cl3 [0, 1, 2] JT.Ex.J3 1 0
+    (by decide) (by decide) (by decide) (by decide) JT.Ex.J3_forest (by decide) JT.Ex.J3_rip
+    (.inl (by decide)) JT.Ex.cl3_antichain⟩
+
+/-- [S] `clique_intersections` WRITES `|C_row ∩ C_col|` at every stored entry (so the weights
+`kruskal` sorts by are the junction-tree weights `JT.w (cgCl t) nv`), no panic, pattern kept. -/
+theorem clique_intersections_weights {E : IMat} (h : E.WFE) {t : SuperNodeTree}
+    (hsz : E.n ≤ t.snode.size) (nv : Nat) (hnd : ∀ c, (t.snode.getD c #[]).toList.Nodup)
+    (hlt : ∀ c, ∀ v ∈ (t.snode.getD c #[]).toList, v < nv) :
+    ∃ nz, cliqueIntersections E t.snode = .ok { E with nzval := nz } ∧ nz.size = E.rowval.size ∧
+      (∀ k, k < nz.size → 0 ≤ nz.getD k 0) ∧
+      ∀ k, k < E.rowval.size → nz.getD k 0 =
+        Int.ofNat (JT.w (cgCl t) nv (E.rowval.getD k 0, E.colIdx.getD k 0)) :=
+  cliqueIntersections_jtw h hsz nv hnd hlt
+
+/-- non-vacuity: `intersect_dim` counts the common elements -/
+example : intersectDim #[0, 1, 2] #[1, 2, 5] = 2 := by
+  rw [intersectDim_eq_count #[0, 1, 2] #[1, 2, 5] (by decide) (by decide) 3 (by decide)]; rfl
+
+/-- [S] **AFTER `initialise` THE EDGE MATRIX CONTAINS A JUNCTION TREE** — the supernode tree of
+`SuperNodeTree::new`, as the stored entries `(max c p, min c p)` for every non-root clique `c` with
+parent `p` — **AND THE CLIQUES FORM AN ANTICHAIN** (the supernodes of `pothen_sun` are maximal: a
+representative vertex has no child in the elimination tree whose column count is one larger). -/
+theorem clique_graph_initialise_junction_tree {L : LPat} (h : L.Filled) {t0 : SuperNodeTree}
+    (hnew : SuperNodeTree.new L = .ok t0) (hok : SnTreeOk L t0) (h2 : 2 ≤ t0.snode.size) :
+    ∃ s1 t1, CGStrategy.new.initialise t0 = .ok (s1, t1) ∧ CGHasJT s1 t1 (cgTreeEdges t0) ∧
+      CGAntichain t1 := by
+  obtain ⟨s1, t1, hi, hJ⟩ :=
+    initialise_hasJT newFromTriplets_spec reduced_ok reduced_tree_edge h hok h2
+  obtain ⟨s1', t1', hi', _, _, hrel⟩ := initialise_ok L t0 h hok h2
+  rw [hi] at hi'
+  obtain ⟨rfl, rfl⟩ := Prod.mk.inj (Except.ok.inj hi')
+  exact ⟨s1, t1, hi, hJ, initialise_antichain h hnew hrel⟩
+
+/-- non-vacuity: on the tree of `exL` — a state with a junction tree inside the graph -/
+example : ∃ s t J, CGHasJT s t J ∧ CGAntichain t := by
+  obtain ⟨t0, hnew, hok, h2⟩ := exL_two_cliques
+  obtain ⟨s1, t1, _, hJ, ha⟩ := clique_graph_initialise_junction_tree exL_filled hnew hok h2
+  exact ⟨s1, t1, _, hJ, ha⟩
+
+/-- [S] **ONE MERGE ALONG A JUNCTION-TREE EDGE KEEPS A JUNCTION TREE INSIDE THE GRAPH AND THE
+ANTICHAIN PROPERTY**: under the loop invariant, if the merged entry `(c1, cr)` belongs to a junction
+tree `J` made of stored entries, then after `merge_two_cliques` + `update_strategy` the contraction
+`JT.contract c1 cr J` is a junction tree of the new live cliques made of stored entries of the new
+edge matrix, and the live cliques still form an antichain. -/
+theorem clique_graph_merge_junction_tree {N nv : Nat} {s : CGStrategy} {t : SuperNodeTree}
+    (hinv : CGInv N nv s t) {c1 cr : Nat} (he : (s.edges.entry c1 cr).isSome = true)
+    {J : List (Nat × Nat)} (hJ : CGHasJT s t J) (hedge : (c1, cr) ∈ J)
+    {t' : SuperNodeTree} {s' : CGStrategy} (hm : s.mergeTwoCliques t (c1, cr) = .ok t')
+    (hu : s.updateStrategy t' (c1, cr) true = .ok s') :
+    CGHasJT s' t' (JT.contract c1 cr J) ∧ (CGAntichain t → CGAntichain t') :=
+  ⟨cg_merge_hasJT hinv he hJ hedge hm hu, fun ha => cg_merge_antichain hinv he hJ hedge ha hm⟩
+
+/-- [S] **THE LOOP KEEPS A JUNCTION TREE INSIDE THE GRAPH** provided every merge it performs contracts
+an edge lying on a junction tree inside the current graph (`CGStrategy.loopOnJT`: the loop of
+`merge_cliques` with the condition `CGOnJT` collected at every accepted candidate): the returned
+state has a junction tree inside its edge matrix, and the antichain property survives. -/
+theorem clique_graph_loop_junction_tree {N nv : Nat} (fuel : Nat) {s : CGStrategy}
+    {t : SuperNodeTree} (hinv : CGInv N nv s t) (h2 : 2 ≤ t.nCliques) (hJ : ∃ J, CGHasJT s t J)
+    (hon : s.loopOnJT fuel t) {s' : CGStrategy} {t' : SuperNodeTree}
+    (hl : CGStrategy.loop fuel s t = .ok (s', t')) :
+    (∃ J', CGHasJT s' t' J') ∧ (CGAntichain t → CGAntichain t') :=
+  cg_loop_hasJT traverse_spec evaluate_spec merge_update_ok merge_hasJT_ok merge_antichain_ok N nv
+    fuel s t hinv h2 hJ hon s' t' hl
+
+/-- non-vacuity: a stopped strategy returns at once; the junction tree of `initialise` on `exL` -/
+example : ∃ N nv s t, CGInv N nv s t ∧ 2 ≤ t.nCliques ∧ (∃ J, CGHasJT s t J) ∧
+    ({ s with stop := true } : CGStrategy).loopOnJT 3 t := by
+  obtain ⟨t0, hnew, hok, h2⟩ := exL_two_cliques
+  obtain ⟨s1, t1, hi, hJ, _⟩ := clique_graph_initialise_junction_tree exL_filled hnew hok h2
+  obtain ⟨s1', t1', hi', _, hinv, hrel⟩ := clique_graph_initialise exL_filled hok h2
+  rw [hi] at hi'
+  obtain ⟨rfl, rfl⟩ := Prod.mk.inj (Except.ok.inj hi')
+  exact ⟨_, _, s1, t1, hinv, by rw [hrel.ncl, hok.ncl]; exact h2, ⟨_, hJ⟩,
+    CGStrategy.loopOnJT_of_stop _ _ _ rfl⟩
+
+/-- [S] **KRUSKAL'S TREE HAS THE RUNNING-INTERSECTION PROPERTY WHEN THE GRAPH CONTAINS A JUNCTION
+TREE** (`post_process_merge` with ≥ 2 cliques left): under the loop invariant, if the edge matrix
+contains a junction tree of the live cliques, then `post_process_merge` returns without panic the
+tree described by `CGPostDesc`, the spanning tree `kruskalTree` of the matrix re-weighted by
+`clique_intersections` has the running-intersection property for the clique sets, and THE SUPERNODES
+`clique \ parent clique` OF THE RESULT ARE PAIRWISE DISJOINT (`snDisjointB` — so far a tested link). -/
+theorem clique_graph_kruskal_running_intersection {N nv : Nat} {s : CGStrategy} {t : SuperNodeTree}
+    (hinv : CGInv N nv s t) (h2 : 2 ≤ t.nCliques) (hch : t.snodeChildren = Array.replicate N #[])
+    (hsep : t.separators.size = N)
+    {v0 c0 : Nat} (hpost : t.post.back? = some v0) (hv0 : v0 ∈ (t.snode.getD c0 #[]).toList)
+    {J : List (Nat × Nat)} (hJ : CGHasJT s t J) :
+    ∃ s' t' nz, s.postProcessMerge t = .ok (s', t') ∧
+      CGPostDesc N t t' (dpcRoot t.snode v0) ∧
+      cliqueIntersections s.edges t.snode = .ok { s.edges with nzval := nz } ∧
+      JT.RIP (cgCl t) (cgLiveList t) (kruskalTree { s.edges with nzval := nz } t.nCliques) ∧
+      snDisjointB t' = true :=
+  kruskal_rip_of_hasJT hinv h2 hch hsep hpost hv0 hJ
+
+/-- non-vacuity: the state after `initialise` on the tree of `exL` satisfies the hypotheses (loop
+invariant, ≥ 2 cliques, no children, as many separators as cliques, the last vertex of the
+post-order lies in a clique, a junction tree inside the graph); the conclusion for it -/
+example : ∃ (s : CGStrategy) (t : SuperNodeTree) (s' : CGStrategy) (t' : SuperNodeTree),
+    s.postProcessMerge t = .ok (s', t') ∧ snDisjointB t' = true := by
+  obtain ⟨t0, hnew, hok, h2⟩ := exL_two_cliques
+  obtain ⟨s1, t1, hi, hJ, _⟩ := clique_graph_initialise_junction_tree exL_filled hnew hok h2
+  obtain ⟨s1', t1', hi', _, hinv, hrel⟩ := clique_graph_initialise exL_filled hok h2
+  rw [hi] at hi'
+  obtain ⟨rfl, rfl⟩ := Prod.mk.inj (Except.ok.inj hi')
+  obtain ⟨s', t', _, hp, _, hd, _⟩ := post_multi_desc_jt exL t0 t1 t1 s1 exL_filled hok hrel
+    (CGFrame.refl t1) (CGCover.refl t1) hinv (by rw [hrel.ncl, hok.ncl]; exact h2) hJ
+  exact ⟨s1, t1, s', t', hp, hd⟩
+
+/-
+  FULL STATEMENT: `analysis_clique_graph_valid`, proved in the last section.  What the two theorems
+  below leave open — and the last section supplies — is a single proposition about the run of the
+  model: `CGMergesOnJT L` — EVERY MERGE
+  THE LOOP PERFORMS CONTRACTS AN EDGE THAT LIES ON A JUNCTION TREE INSIDE THE CURRENT CLIQUE GRAPH, i.e.
+  that `ispermissible` + "weight ≥ 0" only ever accept such edges (the theorem of Habib–Stacho /
+  Garstka–Cannon–Goulart; note that `update_strategy` contracts the graph WITHOUT removing the edges
+  that leave the reduced clique graph, so the statement needed is about the graph the code really
+  keeps).  It holds trivially for patterns with at most two cliques (`clique_graph_merges_on_jt_of_two`).
+-/
+
+/-- [S] **C17 FOR THE STRATEGY `clique_graph`, `cgRipB` REPLACED BY A PROPOSITION ABOUT THE EXIT GRAPH**
+(`…_partial`): for a filled pattern `L`, a permutation `ordering` and pattern entries inside `L`, if
+at the exit of the merge loop the edge matrix contains a junction tree of the live cliques
+(`CGExitJT L`) and the live supernodes of the returned tree are non-empty (`cgNonemptyB L`, the second
+tested link), `SparsityPattern::new(L, ordering, "clique_graph")` returns WITHOUT PANIC a tree and an
+ordering that satisfy `ValidCliqueTree`.  The running-intersection property of Kruskal's spanning tree
+is now a consequence: `kruskal` is maximum-weight, a maximum-weight forest of a graph containing a
+junction tree is a junction tree, running intersection makes the supernodes disjoint. -/
+theorem analysis_clique_graph_valid_exitjt_partial {L : LPat} (h : L.Filled) (ordering : Array Nat)
+    (ho : ordering.toList.Perm (List.range L.n)) (edges : List (Nat × Nat))
+    (hedges : ∀ e ∈ edges, ∃ a b, a < L.n ∧ b < L.n ∧ ordering[a]? = some e.1 ∧
+        ordering[b]? = some e.2 ∧ (b ∈ L.col a ∨ a ∈ L.col b))
+    (hjt : CGExitJT L) (hne : cgNonemptyB L = true) :
+    ∃ tf ord', sparsityPatternNewCG L ordering = .ok (tf, ord') ∧
+      ValidCliqueTree L.n edges tf ord' ∧ validCliqueTreeB L.n edges tf ord' = true :=
+  analysis_cg_valid_exitjt_partial h ordering ho edges hedges hjt hne
+
+/-- [S] **C17 FOR THE STRATEGY `clique_graph` FROM A SINGLE HYPOTHESIS ON THE MERGES**
+(`…_partial`): for a filled pattern `L`, a permutation `ordering` and pattern entries inside `L`, if
+every merge the loop performs contracts an edge that lies on a junction tree inside the current
+clique graph (`CGMergesOnJT L`), `SparsityPattern::new(L, ordering, "clique_graph")` returns WITHOUT
+PANIC a tree and an ordering that satisfy `ValidCliqueTree`.  NEITHER TESTED LINK IS A HYPOTHESIS ANY
+MORE: the reduced clique graph contains the supernode tree (a junction tree) and the initial cliques
+are maximal; contracting a junction-tree edge keeps a junction tree inside the graph and the cliques
+an antichain; at exit Kruskal's maximum-weight tree is a junction tree (disjoint supernodes) and in an
+antichain no live clique is swallowed by its tree parent (non-empty supernodes). -/
+theorem analysis_clique_graph_valid_merges_partial {L : LPat} (h : L.Filled) (ordering : Array Nat)
+    (ho : ordering.toList.Perm (List.range L.n)) (edges : List (Nat × Nat))
+    (hedges : ∀ e ∈ edges, ∃ a b, a < L.n ∧ b < L.n ∧ ordering[a]? = some e.1 ∧
+        ordering[b]? = some e.2 ∧ (b ∈ L.col a ∨ a ∈ L.col b))
+    (hm : CGMergesOnJT L) :
+    ∃ tf ord', sparsityPatternNewCG L ordering = .ok (tf, ord') ∧
+      ValidCliqueTree L.n edges tf ord' ∧ validCliqueTreeB L.n edges tf ord' = true :=
+  analysis_cg_valid_merges_partial h ordering ho edges hedges hm
+
+/-- [S] the two propositions about the run are linked: if every merge contracts a junction-tree
+edge, the exit graph contains a junction tree and no live supernode of the result is empty -/
+theorem clique_graph_exit_of_merges {L : LPat} (h : L.Filled) (hm : CGMergesOnJT L) :
+    CGExitJT L ∧ CGExitNonempty L :=
+  ⟨cg_exitJT_of_merges_ok h hm, cg_exitNonempty_of_merges h hm⟩
+
+/-- [S] non-vacuity of `CGMergesOnJT` (hence of `CGExitJT`): it HOLDS for every filled pattern whose
+supernode tree has at most two cliques — the only possible stored entry `(1, 0)` is the edge of the
+supernode tree -/
+theorem clique_graph_merges_on_jt_of_two {L : LPat} (h : L.Filled)
+    (hsz : ∀ t0, SuperNodeTree.new L = .ok t0 → t0.snode.size ≤ 2) : CGMergesOnJT L :=
+  cg_mergesOnJT_of_two h hsz
+
+/-- non-vacuity of `CGMergesOnJT` on a concrete pattern: the path `0 — 1 — 2` (cliques `{0,1}`,
+`{1,2}`; `exP3_size_le`: its supernode tree has at most two cliques because vertex `2` cannot be a
+representative) -/
+example : CGMergesOnJT exP3 := clique_graph_merges_on_jt_of_two exP3_filled exP3_size_le
+
+/-- non-vacuity of `analysis_clique_graph_valid_merges_partial`: every hypothesis holds for the path
+`0 — 1 — 2` with the identity ordering and the pattern entry `(0, 1)` -/
+example : ∃ tf ord', sparsityPatternNewCG exP3 #[0, 1, 2] = .ok (tf, ord') ∧
+    ValidCliqueTree exP3.n [(0, 1)] tf ord' := by
+  obtain ⟨tf, ord', h1, h2, _⟩ := analysis_clique_graph_valid_merges_partial exP3_filled #[0, 1, 2]
+    (List.Perm.refl _) [(0, 1)]
+    (by
+      intro e he
+      simp only [List.mem_singleton] at he
+      subst he
+      exact ⟨0, 1, by decide, by decide, rfl, rfl, .inl (by decide)⟩)
+    (clique_graph_merges_on_jt_of_two exP3_filled exP3_size_le)
+  exact ⟨tf, ord', h1, h2⟩
+
+/-- non-vacuity of `analysis_clique_graph_valid_exitjt_partial`: both hypotheses hold for the path
+(`CGExitJT` and `cgNonemptyB` are consequences of `CGMergesOnJT`) -/
+example : CGExitJT exP3 ∧ cgNonemptyB exP3 = true := by
+  obtain ⟨h1, h2⟩ := clique_graph_exit_of_merges exP3_filled
+    (clique_graph_merges_on_jt_of_two exP3_filled exP3_size_le)
+  exact ⟨h1, cgNonemptyB_of_exit exP3_filled h2⟩
+
+
+/-! ### the remaining hypothesis in terms of the cliques only: separating pairs
+
+`JT.SepPair cl L a b`: no chain of cliques of `L` that all contain `S = C_a ∩ C_b`, consecutive ones
+meeting in a vertex outside `S`, leads from `a` to `b` — the adjacency of the reduced clique graph
+(Habib–Stacho) of the family. -/
+
+/-- [S] **EXCHANGE LEMMA**: a separating pair `(a, b)` of a family that has a junction tree `J` is an
+edge of a junction tree that otherwise uses edges of `J` only (proved without paths: greedy
+maximum-weight forest of `J + (a, b)` with priority for `(a, b)`; in a forest the connection between
+two vertices through two sub-forests goes through their intersection). -/
+theorem separating_pair_exchange {cl : Nat → Nat → Bool} {L : List Nat} (hL : L.Nodup) (nv : Nat)
+    (hnv : ∀ c ∈ L, ∀ v, cl c v = true → v < nv) {J : List (Nat × Nat)}
+    (hJ : ForestFrom [] J) (hJL : ∀ e ∈ J, e.1 ∈ L ∧ e.2 ∈ L) (hrip : JT.RIP cl L J)
+    {a b : Nat} (ha : a ∈ L) (hb : b ∈ L) (hab : a ≠ b) (hsep : JT.SepPair cl L a b) :
+    ∃ J', ForestFrom [] J' ∧ (∀ e ∈ J', e ∈ J ∨ e = (a, b)) ∧ JT.RIP cl L J' ∧ (a, b) ∈ J' :=
+  JT.swap_spec hL nv hnv hJ hJL hrip ha hb hab hsep
+
+/-- [S] **… AND CONVERSELY AN EDGE OF A JUNCTION TREE IS A SEPARATING PAIR.** -/
+theorem junction_tree_edge_separating {cl : Nat → Nat → Bool} {L : List Nat} (hL : L.Nodup)
+    {J : List (Nat × Nat)} (hJ : ForestFrom [] J) (hJL : ∀ e ∈ J, e.1 ∈ L ∧ e.2 ∈ L)
+    (hrip : JT.RIP cl L J) {a b : Nat} (hE : (a, b) ∈ J ∨ (b, a) ∈ J) : JT.SepPair cl L a b :=
+  JT.sep_of_edge hL hJ hJL hrip hE
+
+/-- non-vacuity: the star `{0,1}`, `{0,2}`, `{0,3}` with the tree `1—0`, `2—0`: the pair `(2, 1)` is
+separating and not in the tree; the exchange produces a junction tree containing it -/
+example : (2, 1) ∉ JT.Ex.Jstar ∧ ∃ J', ForestFrom [] J' ∧ JT.RIP JT.Ex.star [0, 1, 2] J' ∧
+    (2, 1) ∈ J' ∧ JT.SepPair JT.Ex.star [0, 1, 2] 1 0 := by
+  have hnv : ∀ c ∈ [0, 1, 2], ∀ v, JT.Ex.star c v = true → v < 4 := by
+    intro c hc v hv
+    simp only [List.mem_cons, List.not_mem_nil, or_false] at hc
+    simp only [JT.Ex.star, Bool.or_eq_true, beq_iff_eq] at hv
+    omega
+  obtain ⟨J', h1, _, h3, h4⟩ := separating_pair_exchange (by decide) 4 hnv JT.Ex.Jstar_forest
+    (by decide) JT.Ex.Jstar_rip (by decide) (by decide) (by decide) JT.Ex.star_sep
+  exact ⟨by decide, J', h1, h3, h4, junction_tree_edge_separating (by decide) JT.Ex.Jstar_forest
+    (by decide) JT.Ex.Jstar_rip (.inl (by decide))⟩
+
+/-- [S] **A STORED ENTRY LIES ON A JUNCTION TREE INSIDE THE GRAPH IFF IT IS A SEPARATING PAIR OF THE
+CURRENT CLIQUES**, as soon as the graph contains any junction tree (under the loop invariant). -/
+theorem clique_graph_on_jt_iff_separating {N nv : Nat} {s : CGStrategy} {t : SuperNodeTree}
+    (hinv : CGInv N nv s t) {J : List (Nat × Nat)} (hJ : CGHasJT s t J) {r c : Nat}
+    (he : (s.edges.entry r c).isSome = true) : CGOnJT s t (r, c) ↔ CGSep t (r, c) :=
+  ⟨cgSep_of_onJT hinv, cgOnJT_of_sep hinv hJ he⟩
+
+/-- [S] the two formulations of the remaining hypothesis agree on every filled pattern: "every merge
+contracts an edge of a junction tree inside the current graph" iff "every merge merges a separating
+pair of the current cliques" -/
+theorem clique_graph_merges_sep_iff_on_jt {L : LPat} (h : L.Filled) :
+    CGMergesSep L ↔ CGMergesOnJT L :=
+  cg_mergesSep_iff_onJT h
+
+/-- [S] **C17 FOR THE STRATEGY `clique_graph` FROM "EVERY MERGE MERGES A SEPARATING PAIR"**
+(`…_partial`): for a filled pattern `L`, a permutation `ordering` and pattern entries inside `L`, if
+every pair of cliques the loop merges is a separating pair of the CURRENT cliques — an edge of their
+reduced clique graph; a statement about the clique sets alone, not about the graph the code keeps —
+(`CGMergesSep L`), `SparsityPattern::new(L, ordering, "clique_graph")` returns WITHOUT PANIC a tree and
+an ordering that satisfy `ValidCliqueTree`. -/
+theorem analysis_clique_graph_valid_sep_partial {L : LPat} (h : L.Filled) (ordering : Array Nat)
+    (ho : ordering.toList.Perm (List.range L.n)) (edges : List (Nat × Nat))
+    (hedges : ∀ e ∈ edges, ∃ a b, a < L.n ∧ b < L.n ∧ ordering[a]? = some e.1 ∧
+        ordering[b]? = some e.2 ∧ (b ∈ L.col a ∨ a ∈ L.col b))
+    (hm : CGMergesSep L) :
+    ∃ tf ord', sparsityPatternNewCG L ordering = .ok (tf, ord') ∧
+      ValidCliqueTree L.n edges tf ord' ∧ validCliqueTreeB L.n edges tf ord' = true :=
+  analysis_cg_valid_sep_partial h ordering ho edges hedges hm
+
+/-- non-vacuity: `CGMergesSep` holds for the path `0 — 1 — 2` -/
+example : CGMergesSep exP3 := cg_mergesSep_of_two exP3_filled exP3_size_le
+
+
+/-! ### the last link: THE EDGE MATRIX IS AT ALL TIMES EXACTLY THE REDUCED CLIQUE GRAPH OF THE CURRENT
+CLIQUES — `Lemmas/ChordalJTExact.lean`, `ChordalCGReducedExact.lean`, `ChordalCGExactInit.lean`,
+`ChordalCGTraversePerm.lean`, `ChordalCGExactLoop.lean`, `ChordalCGExactFinal.lean`
+
+`JT.Exact cl L adj`: on `L`, `adj x y ↔ JT.SepPair cl L x y`; `CGExact s t`: the same for the stored
+entries of the edge matrix and the clique sets of the running strategy. -/
+
+/-- [S] **EXACTNESS SURVIVES A PERMISSIBLE MERGE** (abstract; Habib–Stacho, here WITHOUT removing any
+edge after the contraction): a family with a junction tree, `adj` symmetric and exactly its
+separating-pair relation, `a — b` an edge whose every common neighbour `n` has `C_a ∩ C_n = C_b ∩ C_n`
+(`JT.Perm`); then the adjacency with `b` contracted into `a` is exactly the separating-pair relation
+of the family in which `C_a ∪ C_b` replaces `C_a`, `C_b`.  (Permissibility isolates `a` and `b` at the
+level `C_a ∩ C_b`; chains of the merged family are routed through `a` or `b` according to the side of
+the junction-tree edge `a — b` they come from.) -/
+theorem separating_pairs_exact_after_merge (cl : Nat → Nat → Bool) (L : List Nat) (nv : Nat)
+    (J : List (Nat × Nat)) (adj : Nat → Nat → Prop) (a b : Nat) (hL : L.Nodup)
+    (hnv : ∀ c ∈ L, ∀ v, cl c v = true → v < nv) (hJ : ForestFrom [] J)
+    (hJL : ∀ e ∈ J, e.1 ∈ L ∧ e.2 ∈ L) (hrip : JT.RIP cl L J)
+    (hsymm : ∀ x y, adj x y → adj y x) (hex : JT.Exact cl L adj) (ha : a ∈ L) (hb : b ∈ L)
+    (hab : a ≠ b) (hadj : adj a b) (hperm : JT.Perm cl L adj a b) :
+    JT.Exact (JT.mergeCl cl a b) (L.erase b) (JT.contractAdj adj a b) :=
+  JT.exact_contract cl L nv J adj a b hL hnv hJ hJL hrip hsymm hex ha hb hab hadj hperm
+
+/-- non-vacuity: the star `{0,1}`, `{0,2}`, `{0,3}` (every pair separating), merging `1` into `0` -/
+example : JT.Exact (JT.mergeCl JT.Ex.star 0 1) ([0, 1, 2].erase 1)
+    (JT.contractAdj JT.Ex.adjStar 0 1) := by
+  refine separating_pairs_exact_after_merge JT.Ex.star [0, 1, 2] 4 JT.Ex.Jstar JT.Ex.adjStar 0 1
+    (by decide) ?_ JT.Ex.Jstar_forest (by decide) JT.Ex.Jstar_rip ?_ JT.Ex.star_exact (by decide)
+    (by decide) (by decide) ?_ JT.Ex.star_perm
+  · intro c hc v hv
+    simp only [List.mem_cons, List.not_mem_nil, or_false] at hc
+    simp only [JT.Ex.star, Bool.or_eq_true, beq_iff_eq] at hv
+    omega
+  · intro x y h
+    exact (JT.Ex.star_exact y (by
+        have := h; unfold JT.Ex.adjStar at this; simp only [List.mem_cons, List.not_mem_nil, or_false]; omega)
+      x (by have := h; unfold JT.Ex.adjStar at this; simp only [List.mem_cons, List.not_mem_nil, or_false]; omega)
+      (by have := h; unfold JT.Ex.adjStar at this; omega)).2
+      (JT.sepPair_symm ((JT.Ex.star_exact x (by
+        have := h; unfold JT.Ex.adjStar at this; simp only [List.mem_cons, List.not_mem_nil, or_false]; omega)
+      y (by have := h; unfold JT.Ex.adjStar at this; simp only [List.mem_cons, List.not_mem_nil, or_false]; omega)
+      (by have := h; unfold JT.Ex.adjStar at this; omega)).1 h))
+  · unfold JT.Ex.adjStar; omega
+
+/-- [S] **`compute_reduced_clique_graph` / `initialise`: THE EDGE MATRIX IS EXACTLY THE REDUCED CLIQUE
+GRAPH** of the cliques of `SuperNodeTree::new`: two cliques are joined by a stored entry IFF they form
+a separating pair.  (Code level, `Lemmas/ChordalCGReducedExact.lean`: `inter_equal` decides
+`s1 ∩ s2 = s3`; `separator_graph` lists exactly the pairs meeting outside the separator; the
+components of `find_components` are closed under its edges — completeness of `DFS_hashtable` —;
+`is_unconnected` answers `true` iff the two cliques are not connected; a pair is emitted iff it is
+unconnected for some listed separator; and the intersection of a separating pair is the separator of
+a supernode-tree edge.) -/
+theorem clique_graph_initialise_exact {L : LPat} (h : L.Filled) {t0 : SuperNodeTree}
+    (hok : SnTreeOk L t0) (h2 : 2 ≤ t0.snode.size) :
+    ∃ s1 t1, CGStrategy.new.initialise t0 = .ok (s1, t1) ∧ CGExact s1 t1 :=
+  initialise_exact_ok L t0 h hok h2
+
+/-- non-vacuity: the state after `initialise` on the tree of `exL` -/
+example : ∃ s t, CGExact s t := by
+  obtain ⟨t0, _, hok, h2⟩ := exL_two_cliques
+  obtain ⟨s1, t1, _, hex⟩ := clique_graph_initialise_exact exL_filled hok h2
+  exact ⟨s1, t1, hex⟩
+
+/-- [S] **A CANDIDATE RETURNED BY `traverse` IS PERMISSIBLE** at set level: `traverse` only returns an
+edge after `ispermissible` answered `true` for it (on the unchanged adjacency table and clique sets),
+and that answer means that every common neighbour — the adjacency table is the edge matrix, `CGInv` —
+meets the two cliques in the same set (the Rust code compares the two intersections as sequences;
+equal sequences have equal members). -/
+theorem clique_graph_traverse_permissible {N nv : Nat} {s : CGStrategy} {t : SuperNodeTree}
+    (hinv : CGInv N nv s t) (h2 : 2 ≤ t.nCliques) {s' : CGStrategy} {r c : Nat}
+    (htr : s.traverse t = .ok (s', some (r, c))) : CGPermissible s t r c :=
+  traverse_permissible N nv s t hinv h2 s' r c htr
+
+/-- [S] **ONE PERMISSIBLE MERGE OF THE MODEL KEEPS THE EDGE MATRIX EXACT** (under the loop invariant,
+with a junction tree inside the graph). -/
+theorem clique_graph_merge_exact {N nv : Nat} {s : CGStrategy} {t : SuperNodeTree}
+    (hinv : CGInv N nv s t) {J : List (Nat × Nat)} (hJ : CGHasJT s t J) (hex : CGExact s t)
+    {c1 cr : Nat} (he : (s.edges.entry c1 cr).isSome = true) (hperm : CGPermissible s t c1 cr)
+    {t' : SuperNodeTree} {s' : CGStrategy} (hm : s.mergeTwoCliques t (c1, cr) = .ok t')
+    (hu : s.updateStrategy t' (c1, cr) true = .ok s') : CGExact s' t' :=
+  cg_merge_exact JT.exact_contract hinv hJ hex he hperm hm hu
+
+/-- non-vacuity of the hypotheses of `clique_graph_traverse_permissible` / `clique_graph_merge_exact`:
+the state after `initialise` on the tree of `exL` satisfies the loop invariant, has a junction tree
+inside its graph and an exact edge matrix -/
+example : ∃ N nv s t J, CGInv N nv s t ∧ 2 ≤ t.nCliques ∧ CGHasJT s t J ∧ CGExact s t := by
+  obtain ⟨t0, hnew, hok, h2⟩ := exL_two_cliques
+  obtain ⟨s1, t1, hi, hJ, _⟩ := clique_graph_initialise_junction_tree exL_filled hnew hok h2
+  obtain ⟨s1', t1', hi', _, hinv, hrel⟩ := clique_graph_initialise exL_filled hok h2
+  rw [hi] at hi'
+  obtain ⟨rfl, rfl⟩ := Prod.mk.inj (Except.ok.inj hi')
+  obtain ⟨s1'', t1'', hi'', hex⟩ := clique_graph_initialise_exact exL_filled hok h2
+  rw [hi] at hi''
+  obtain ⟨rfl, rfl⟩ := Prod.mk.inj (Except.ok.inj hi'')
+  exact ⟨_, _, s1, t1, _, hinv, by rw [hrel.ncl, hok.ncl]; exact h2, hJ, hex⟩
+
+/-- [S] **EVERY MERGE OF THE CLIQUE-GRAPH LOOP MERGES A SEPARATING PAIR OF THE CURRENT CLIQUES, I.E.
+CONTRACTS AN EDGE OF A JUNCTION TREE INSIDE THE CURRENT GRAPH** — for every filled pattern.  This was
+the hypothesis of `analysis_clique_graph_valid_{sep,merges}_partial`. -/
+theorem clique_graph_merges_separating {L : LPat} (h : L.Filled) :
+    CGMergesSep L ∧ CGMergesOnJT L :=
+  ⟨cg_mergesSep h, cg_mergesOnJT h⟩
+
+/-- [S] **THE TWO FORMERLY TESTED LINKS ARE THEOREMS**: for every filled pattern the supernodes of
+the tree returned by `merge_cliques` (clique-graph strategy) are pairwise disjoint (`cgRipB`) and
+the live ones non-empty (`cgNonemptyB`).  (The driver and the harness keep evaluating both on every
+generated pattern, on model and implementation.) -/
+theorem clique_graph_tested_links_hold {L : LPat} (h : L.Filled) :
+    cgRipB L = true ∧ cgNonemptyB L = true :=
+  ⟨cgRipB_true h, cgNonemptyB_true h⟩
+
+/-- [S] **C17 FOR THE STRATEGY `clique_graph`** (the FULL STATEMENT announced above): for every filled
+pattern `L` (the symbolic factor of the permuted pattern), every `ordering` that is a permutation and
+pattern entries inside `L`, `SparsityPattern::new(L, ordering, "clique_graph")` returns WITHOUT PANIC
+a tree and an ordering that satisfy `ValidCliqueTree` — every clause of the harness oracle: coverage
+of every pattern entry, single root last, parents later in the post-order, separator = clique ∩
+parent clique, RUNNING INTERSECTION, children = inverse of parents, consecutive supernodes
+partitioning `0..n`, `nblk = |clique|`, ordering a permutation — and the executable checker accepts
+them.  No hypothesis on the run of the merge loop is left. -/
+theorem analysis_clique_graph_valid {L : LPat} (h : L.Filled) (ordering : Array Nat)
+    (ho : ordering.toList.Perm (List.range L.n)) (edges : List (Nat × Nat))
+    (hedges : ∀ e ∈ edges, ∃ a b, a < L.n ∧ b < L.n ∧ ordering[a]? = some e.1 ∧
+        ordering[b]? = some e.2 ∧ (b ∈ L.col a ∨ a ∈ L.col b)) :
+    ∃ tf ord', sparsityPatternNewCG L ordering = .ok (tf, ord') ∧
+      ValidCliqueTree L.n edges tf ord' ∧ validCliqueTreeB L.n edges tf ord' = true :=
+  analysis_cg_valid h ordering ho edges hedges
+
+/-- non-vacuity: `exL` with the identity ordering and the pattern entry `(0, 1)` -/
+example : ∃ tf ord', sparsityPatternNewCG exL #[0, 1, 2, 3, 4] = .ok (tf, ord') ∧
+    ValidCliqueTree exL.n [(0, 1)] tf ord' := by
+  obtain ⟨tf, ord', h1, h2, _⟩ := analysis_clique_graph_valid exL_filled #[0, 1, 2, 3, 4]
+    (List.Perm.refl _) [(0, 1)]
+    (by
+      intro e he
+      simp only [List.mem_singleton] at he
+      subst he
+      exact ⟨0, 1, by decide, by decide, rfl, rfl, .inl (by decide)⟩)
+  exact ⟨tf, ord', h1, h2⟩
+
+/-- [S] the same with every hypothesis in the executable form the driver evaluates on each generated
+case (`hyp.analysis`: `filled=1 perm=1 edges=1`) — the fields `rip`, `ne` of `cg.trace` are no longer
+needed. -/
+theorem analysis_clique_graph_valid_of_input_tests (L : LPat) (ordering : Array Nat)
+    (edges : List (Nat × Nat)) (h1 : L.filledB = true) (h2 : clOrderingPerm L.n ordering = true)
+    (h3 : L.edgesInB ordering edges = true) :
+    ∃ tf ord', sparsityPatternNewCG L ordering = .ok (tf, ord') ∧
+      validCliqueTreeB L.n edges tf ord' = true := by
+  obtain ⟨tf, ord', a, _, b⟩ := analysis_clique_graph_valid ((LPat.filledB_iff L).1 h1)
+    ordering ((clOrderingPerm_iff L.n ordering).1 h2) edges (LPat.edgesInB_sound L ordering edges h3)
+  exact ⟨tf, ord', a, b⟩
+
 /-!
-Not carried by a theorem: for the clique-graph strategy, the RUNNING-INTERSECTION property of the
-spanning tree chosen by `kruskal` in the merged clique graph and that no live clique is swallowed
-by its tree parent (see the comment above `analysis_clique_graph_valid_partial`; they are the
-tested hypotheses `cgRipB`, `cgNonemptyB`, evaluated by the driver on every generated pattern and
-by the harness on the implementation's tree).  The AMD ordering and
-QDLDL's symbolic factorisation are inputs (the hypothesis `LPat.Filled` is evaluated on them by
-the driver on every run).
+Not carried by a theorem: the AMD ordering and QDLDL's symbolic factorisation are inputs (the
+hypothesis `LPat.Filled` — and that the ordering is a permutation and the pattern lies inside the
+factor — is evaluated on them by the driver on every run, channel `hyp.analysis`).  For all three
+merge strategies everything downstream is now a theorem; for the clique-graph strategy the two
+formerly tested links `cgRipB`, `cgNonemptyB` are theorems (`clique_graph_tested_links_hold`) and
+stay evaluated by the driver on every generated pattern and by the harness on the implementation's
+tree (channel `cg.trace`).
 -/
 
 end Clarabel.C17
